@@ -296,7 +296,7 @@ def gen_history(rng, length, calpha=CONSTRAINTS, ealpha=EXPRS, balpha=BOOLS, uni
         hist, t = gen_history(rng, length, calpha, ealpha, balpha, uni, max_solvers, weights, replace=replace, replace_any=replace_any,
                               symv=symv, first_eq=first_eq, contra=contra, prefix=prefix, pickle_all=pickle_all,
                               core_extra=core_extra, annotate=annotate, ann_kinds=ann_kinds, repl_noinval=repl_noinval), 0
-        for d in hist:
+        for d in hist[len(prefix or []):]:      # a directed opening keeps the threads it names
             if rng.random() < 0.3:
                 t = rng.randrange(threads + 1)
             if t:
@@ -945,9 +945,258 @@ def prefix_annotated_core(rng, annotate=0.7, ann_kinds=(1, 2, 3)):
     return hist
 
 
+def _ask_all(rng, s, v, exprs=None, core=False, light=False, k=None):
+    """questions that say everything about the variable v of solver s: all values, the extrema, single values by solution() and by
+    satisfiable(extra_constraints=[v == k]); light: only calls that neither simplify nor enumerate (they keep the Z3 solver the
+    frontend has); core: unsat_core() too"""
+    out = []
+    exprs = exprs or [v]
+    for _ in range(k or rng.choice([2, 3, 4])):
+        r = rng.random()
+        if core and r < 0.3:
+            out.append({"s": s, "op": "unsat_core", "extra": []})
+        elif r < 0.45:
+            out.append({"s": s, "op": "solution", "e": v, "v": rng.randrange(16), "extra": []})
+        elif r < 0.6:
+            out.append({"s": s, "op": "satisfiable", "extra": ["%s == %d" % (v, rng.randrange(8))]})
+        elif r < 0.7 or light:
+            out.append({"s": s, "op": "eval", "e": rng.choice(exprs), "n": 1, "extra": []})
+        elif r < 0.9:
+            out.append({"s": s, "op": "eval", "e": rng.choice(exprs), "n": rng.choice([20, 40]), "extra": []})
+        else:
+            out.append({"s": s, "op": rng.choice(["min", "max"]), "e": rng.choice(exprs), "signed": rng.random() < 0.3, "extra": []})
+    return out
+
+
+def prefix_look_then_branch(rng, calpha=None, ealpha=None, balpha=None):
+    """A solver holds constraints on some variables and is ASKED about a variable v it holds nothing on (one value, a
+    truth value, solution(), satisfiable() under an extra constraint on v, the extrema): whatever it sets up to answer
+    belongs to it alone.  Then it is branched (sometimes twice: nested), ONE of the solvers adds a constraint on v (another one
+    sometimes a different one), and every solver is asked everything about v."""
+    calpha = calpha or CONSTRAINTS
+    ealpha = ealpha or EXPRS
+    balpha = balpha or BOOLS
+    v = rng.choice(["x", "y", "z"])
+    others = [c for c in calpha if _vars_of(c) and v not in _vars_of(c)]
+    hist = [_add([rng.choice(others)]) for _ in range(rng.choice([0, 1, 1, 2]))]
+    ex = [e for e in ealpha if _vars_of(e) == {v}] or [v]
+    bs = [c for c in balpha + calpha if _vars_of(c) == {v}]
+    for _ in range(rng.choice([1, 1, 2])):
+        r = rng.random()
+        if r < 0.3:
+            hist.append({"s": 0, "op": "eval", "e": rng.choice(ex), "n": rng.choice([1, 1, 2, 20]), "extra": []})
+        elif r < 0.5:
+            hist.append({"s": 0, "op": rng.choice(["is_true", "is_false"]), "e": rng.choice(bs), "extra": []})
+        elif r < 0.7:
+            hist.append({"s": 0, "op": "solution", "e": rng.choice(ex), "v": rng.randrange(8), "extra": []})
+        elif r < 0.9:
+            hist.append({"s": 0, "op": "satisfiable", "extra": [rng.choice(bs)]})
+        else:
+            hist.append({"s": 0, "op": rng.choice(["min", "max"]), "e": rng.choice(ex), "signed": False, "extra": []})
+    hist.append({"s": 0, "op": "branch"})
+    n = 2
+    if rng.random() < 0.3:
+        hist.append({"s": rng.choice([0, 1]), "op": "branch"})
+        n = 3
+    order = list(range(n))
+    rng.shuffle(order)
+    own = [c for c in _ranges(v) + ["%s == %d" % (v, rng.randrange(8))] if _vars_of(c) == {v}]
+    hist.append(_add([rng.choice(own)], order[0]))
+    if rng.random() < 0.3:
+        hist.append(_add([rng.choice(own)], order[1]))
+    if rng.random() < 0.5:
+        hist += _ask_all(rng, order[0], v, ex, k=1)
+    for o in order[1:] + order[:1]:
+        hist += _ask_all(rng, o, v, ex)
+    return hist
+
+
+def prefix_worker_between(rng, core=False):
+    """Thread hand-off around a branch (the calls still run strictly one after the other): the main thread gives a solver
+    constraints on v and asks it (it now has a Z3 solver in the main thread), then branches it.  ONE side - the actor - then learns
+    more, and is used by a WORKER thread in between: [main: add] worker: ask / ask, add, ask / add, ask; back in the main
+    thread the actor may get one more constraint and is asked with calls that keep its Z3 solver (solution, one value,
+    satisfiable under an extra constraint; unsat_core() when `core`), then the OTHER side is asked everything about v."""
+    v = rng.choice(["x", "x", "y", "z"])
+    own = _ranges(v)
+    narrow = own + ["%s == %d" % (v, rng.randrange(8))]
+    hist = [_add([rng.choice(own)])]
+    if rng.random() < 0.3:
+        hist.append(_add([rng.choice([c for c in CONSTRAINTS if _vars_of(c) and v not in _vars_of(c)])]))
+    hist.append({"s": 0, "op": "satisfiable", "extra": []} if rng.random() < 0.6 else {"s": 0, "op": "eval", "e": v, "n": 1, "extra": []})
+    hist.append({"s": 0, "op": "branch"})
+    a = rng.choice([0, 1])
+    o = 1 - a
+    if rng.random() < 0.5:
+        hist.append(_add([rng.choice(narrow)], a))
+    w = []
+    k = rng.random()
+    if k < 0.35:
+        w += _ask_all(rng, a, v, light=True, k=1)
+    elif k < 0.7:
+        w += [{"s": a, "op": "satisfiable", "extra": []}, _add([rng.choice(narrow + [c for c in CONSTRAINTS if _vars_of(c) and v not in _vars_of(c)])], a),
+              {"s": a, "op": "satisfiable", "extra": []} if rng.random() < 0.6 else _ask_all(rng, a, v, light=True, k=1)[0]]
+    else:
+        w += [_add([rng.choice(narrow)], a)] + _ask_all(rng, a, v, light=True, k=1)
+    hist += [dict(d, t=1) for d in w]
+    if rng.random() < 0.5:
+        # often contradicting what both sides hold: the other side must stay satisfiable
+        hist.append(_add(["Not(%s)" % hist[0]["cs"][0]] if rng.random() < 0.6 else [rng.choice(narrow)], a))
+    hist += _ask_all(rng, a, v, core=core, light=True, k=rng.choice([1, 2]))
+    hist += _ask_all(rng, o, v, core=core, light=True, k=rng.choice([2, 3]))
+    hist += _ask_all(rng, o, v, core=core, k=rng.choice([1, 2]))
+    if rng.random() < 0.4:
+        hist += _ask_all(rng, a, v, core=core, k=1)
+    return hist
+
+
+def _spanning(p, q):
+    """expressions / constraints whose variables are exactly {p, q}"""
+    P, Q = ("ZeroExt(1, %s)" % p if p != "x" else p), ("ZeroExt(1, %s)" % q if q != "x" else q)
+    if "x" not in (p, q):
+        P, Q = p, q
+    exprs = ["%s + %s" % (P, Q), "%s ^ %s" % (P, Q), "%s - %s" % (P, Q)]
+    return exprs, P, Q
+
+
+def prefix_span_then_branch(rng, core=False):
+    """Two variables p and q get range constraints of their own (nothing connects them) and ONE question is asked that spans
+    exactly {p, q} (an expression over both: a value, the extrema, solution(); satisfiable() under an extra constraint over
+    both): whoever answers by combining what it holds about p and about q may remember the combination.  Then the solver is
+    branched (once or twice), one or two of the solvers each add a constraint over exactly {p, q} - mostly `e == k` with
+    different k, each satisfiable on its own -, and every solver is asked about expressions over {p, q} (and, `core`, for its
+    unsat core)."""
+    _size_of("x")
+    uni = _UNI[0]
+    vs = ["x", "y", "z"]
+    rng.shuffle(vs)
+    p, q = vs[:2]
+    exprs, P, Q = _spanning(p, q)
+    cp, cq = rng.choice(_ranges(p)), rng.choice(_ranges(q))
+    hist = [_add([cp]), _add([cq])]
+    if rng.random() < 0.3:
+        hist.append(_add([rng.choice(_ranges(vs[2]))]))
+    if rng.random() < 0.3:
+        hist.insert(rng.randrange(1, len(hist) + 1), {"s": 0, "op": "satisfiable", "extra": []})
+    e = rng.choice(exprs)
+    w = uni.parse(e).size()
+    base = uni.conj([uni.parse(cp), uni.parse(cq)])
+    vals = sorted(uni.value_set(uni.parse(e), base)) or [0]
+    r = rng.random()
+    if r < 0.35:
+        hist.append({"s": 0, "op": "eval", "e": e, "n": rng.choice([1, 1, 2, 40]), "extra": []})
+    elif r < 0.5:
+        hist.append({"s": 0, "op": rng.choice(["min", "max"]), "e": e, "signed": False, "extra": []})
+    elif r < 0.7:
+        hist.append({"s": 0, "op": "solution", "e": e, "v": rng.choice(vals), "extra": []})
+    else:
+        hist.append({"s": 0, "op": "satisfiable", "extra": ["%s == %d" % (e, rng.choice(vals))]})
+    hist.append({"s": 0, "op": "branch"})
+    n = 2
+    if rng.random() < 0.6:
+        hist.append({"s": rng.choice([0, 0, 1]), "op": "branch"})
+        n = 3
+    order = list(range(n))
+    rng.shuffle(order)
+    links = []
+    for _ in range(3):
+        e2 = rng.choice(exprs)
+        links.append("%s == %d" % (e2, rng.choice(sorted(uni.value_set(uni.parse(e2), base)) or [0])))
+    links.append(rng.choice(WEAK[tuple(sorted((p, q)))]))
+    adders = order[:rng.choice([1, 2, 2])]
+    for s in adders:
+        hist.append(_add([rng.choice(links[:3]) if rng.random() < 0.8 else links[3]], s))
+    for s in adders[::-1] + [o for o in order if o not in adders]:
+        for j in range(rng.choice([1, 2])):
+            k = rng.random()
+            if core and (k < 0.4 or (j == 0 and k < 0.8)):
+                hist.append({"s": s, "op": "unsat_core", "extra": []})
+            elif k < 0.7:
+                hist.append({"s": s, "op": "eval", "e": rng.choice(exprs), "n": 40, "extra": []})
+            elif k < 0.85:
+                hist.append({"s": s, "op": rng.choice(["min", "max"]), "e": rng.choice(exprs), "signed": False, "extra": []})
+            else:
+                hist.append({"s": s, "op": "satisfiable", "extra": []})
+    return hist
+
+
+def prefix_exhaust_downsize(rng):
+    """A solver with range constraints on a variable (or two) is asked for EVERYTHING about an expression - all its values (n
+    beyond what exists), its extrema - so that whoever caches knows the complete answer; then downsize(); then ONE small question
+    (one value of some expression, solution(), satisfiable() under an extra constraint: at most one model is learnt); then
+    everything is asked again, without extra constraints."""
+    v = rng.choice(["x", "x", "y", "z"])
+    hist = [_add([rng.choice(_ranges(v))])]
+    if rng.random() < 0.4:
+        hist.append(_add([rng.choice(_ranges(v))]))
+    if rng.random() < 0.3:
+        hist.append(_add([rng.choice([c for c in CONSTRAINTS if _vars_of(c) and v not in _vars_of(c)])]))
+    ex = [e for e in EXPRS if _vars_of(e) == {v}] or [v]
+    asked = []
+    for _ in range(rng.choice([1, 2, 3])):
+        e = v if rng.random() < 0.6 else rng.choice(ex)
+        asked.append(e)
+        hist.append({"s": 0, "op": "eval", "e": e, "n": rng.choice([20, 40]), "extra": []} if rng.random() < 0.6 else
+                    {"s": 0, "op": rng.choice(["min", "max"]), "e": e, "signed": rng.random() < 0.3, "extra": []})
+    t = 0
+    if rng.random() < 0.2:
+        hist.append({"s": 0, "op": "branch"})
+        t = rng.choice([0, 1])
+    hist.append({"s": t, "op": "downsize"})
+    r = rng.random()
+    if r < 0.5:
+        hist.append({"s": t, "op": "eval", "e": rng.choice(ex + [v, v]), "n": 1, "extra": []})
+    elif r < 0.75:
+        hist.append({"s": t, "op": "solution", "e": v, "v": rng.randrange(16), "extra": []})
+    else:
+        hist.append({"s": t, "op": "satisfiable", "extra": [rng.choice(_ranges(v))]})
+    for e in asked + [rng.choice(asked)]:
+        r = rng.random()
+        hist.append({"s": t, "op": "eval", "e": e, "n": rng.choice([20, 40]), "extra": []} if r < 0.5 else
+                    {"s": t, "op": rng.choice(["min", "max"]), "e": e, "signed": rng.random() < 0.3, "extra": []} if r < 0.9 else
+                    {"s": t, "op": "batch_eval", "es": [e], "n": 40, "extra": []})
+    return hist
+
+
+def prefix_lifetimes(rng, rounds=None):
+    """Solver LIFETIMES: two or three UNRELATED solvers (each created blank) get constraints of their own on the same variable -
+    mostly the same number of add() calls - and are asked.  Then, round after round: a branch of one of them is made, asked at
+    once (before anything is added to it) and DROPPED (the history never mentions it again; the garbage collector may take it,
+    sometimes it is told to); at once a branch of ANOTHER one is made and asked at once.  Some branches are kept.  Whatever a
+    frontend, a backend or a shared Z3 solver remembers about `who asked last` must not outlive the solver it was about."""
+    v = rng.choice(["x", "x", "y", "z"])
+    k = rng.choice([2, 2, 3])
+    hist = [{"s": 0, "op": "blank_copy"} for _ in range(k - 1)]
+    nadds = rng.choice([1, 1, 2])
+    pools = _ranges(v)
+    for i in range(k):
+        for _ in range(nadds if rng.random() < 0.8 else rng.choice([1, 2, 3])):
+            hist.append(_add([rng.choice(pools)], i))
+    for i in range(k):
+        hist += _ask_all(rng, i, v, k=rng.choice([1, 2]))
+    nxt = k
+    last = None
+    for _ in range(rounds or rng.choice([6, 8, 10])):
+        i = rng.choice([j for j in range(k) if j != last])
+        last = i
+        hist.append({"s": i, "op": "branch"})
+        b, nxt = nxt, nxt + 1
+        if rng.random() < 0.9:
+            hist += _ask_all(rng, b, v, k=rng.choice([1, 1, 2, 3]))
+        if rng.random() < 0.8:
+            hist.append({"s": b, "op": "drop", "gc": rng.random() < 0.3})
+        elif rng.random() < 0.5:
+            hist.append(_add([rng.choice(pools)], b))
+            hist += _ask_all(rng, b, v, k=1)
+    for i in range(k):
+        hist += _ask_all(rng, i, v, k=1)
+    return hist
+
+
 PREFIXES = {"unchecked-simplify": prefix_unchecked_simplify, "empty-branch": prefix_empty_branch, "early-pickle": prefix_early_pickle,
             "core-whatif": prefix_core_whatif, "annotated-core": prefix_annotated_core, "exhaust-then-connect": prefix_exhaust_then_connect,
-            "branch-rebuild": prefix_branch_rebuild}
+            "branch-rebuild": prefix_branch_rebuild, "look-then-branch": prefix_look_then_branch, "worker-between": prefix_worker_between,
+            "span-then-branch": prefix_span_then_branch, "exhaust-downsize": prefix_exhaust_downsize, "lifetimes": prefix_lifetimes}
 
 
 def gen_directed(rng, length, shape=None, prefix_args=None, **gen):
@@ -1030,7 +1279,7 @@ def judge_approx(uni, ref, d, outcome):
     """C13, second half: an approximate answer (exact=False, or SolverVSA) never excludes a value or a model that
     exists and never reports a satisfiable constraint set as unsatisfiable."""
     op, s = d["op"], d["s"]
-    if op in ("add", "simplify", "downsize", "branch", "blank_copy", "pickle"):
+    if op in ("add", "simplify", "downsize", "branch", "blank_copy", "pickle", "drop"):
         return None if outcome[0] == "ok" else ("crash:" + str(outcome[1]), "%s raised %s" % (op, outcome[1:]))
     extra = [uni.parse(c) for c in d.get("extra", [])]
     sm = ref.satmask(s, extra)
@@ -1088,7 +1337,7 @@ def judge(uni, ref, d, outcome):
     """The property statement (C11 / C10-solver) evaluated on one answer.
     outcome = ("ok", value) | ("unsat", msg) | ("err", ExcTypeName, msg).   Returns None or (kind, explanation)."""
     op, s = d["op"], d["s"]
-    if op in ("add", "simplify", "downsize", "branch", "pickle", "blank_copy"):
+    if op in ("add", "simplify", "downsize", "branch", "pickle", "blank_copy", "drop"):
         if outcome[0] != "ok":
             return ("crash:" + (outcome[1] if outcome[0] == "err" else "UnsatError"), "%s raised %s" % (op, outcome[1:]))
         return None
@@ -1370,6 +1619,14 @@ def apply_op(uni, solvers, d):
         if op == "blank_copy":
             solvers.append(s.blank_copy())
             return ("ok", len(solvers) - 1)
+        if op == "drop":
+            # the end of a solver's life: nothing refers to it any more (its index stays taken; later calls on it are skipped)
+            solvers[d["s"]] = None
+            del s
+            if d.get("gc"):
+                import gc
+                gc.collect()
+            return ("ok", None)
         if op == "unsat_core":
             return ("ok", tuple(s.unsat_core(extra_constraints=ex)))
         if op == "pickle":
@@ -1555,7 +1812,8 @@ def run_history(uni, cls, cfg, hist, on_step=None, checks=None):
                 if d.get("anc") is not None:
                     d["anc"] %= len(solvers)
                 hist[k] = d
-            if d["s"] >= len(solvers) or any(j >= len(solvers) for j in list(d.get("others", [])) + [d.get("anc") or 0]):
+            if d["s"] >= len(solvers) or any(j >= len(solvers) for j in list(d.get("others", [])) + [d.get("anc") or 0]) or \
+                    any(solvers[j] is None for j in [d["s"]] + list(d.get("others", [])) + [d.get("anc") or 0]):
                 outs.append(("skip",))
                 continue
             if inj:
